@@ -23,7 +23,8 @@ class Item:
 
 class Unit:
     def __init__(self, name, props, items, spec_files=(), prelude='', epilogue='', outlines=None,
-                 functions=(), uses='', notes=None, trusted=(), undecided=()):
+                 functions=(), uses='', notes=None, trusted=(), undecided=(), pre_verus=''):
+        self.pre_verus = pre_verus
         self.name, self.props, self.items = name, props, items
         self.spec_files, self.prelude, self.epilogue = spec_files, prelude, epilogue
         self.outlines = outlines or {}
@@ -67,7 +68,7 @@ def build(unit, extra_edits=None):
     prov = {'unit': unit.name, 'items': [], 'outlines': []}
     parts.append('// GENERATED on every run from %s by /verif/tools - do not edit.\n' % REPO)
     parts.append('#![allow(unused_imports, dead_code, unused_variables, unused_mut, unused_assignments, non_snake_case)]\n')
-    parts.append('use vstd::prelude::*;\n' + unit.uses + '\nverus! {\n')
+    parts.append('use vstd::prelude::*;\n' + unit.uses + '\n' + unit.pre_verus + '\nverus! {\n')
     for sf in unit.spec_files:
         with open(os.path.join(VERIF, 'spec', sf), encoding='utf-8') as f:
             parts.append('// ==== spec/%s\n' % sf + f.read() + '\n')
@@ -104,9 +105,17 @@ def build(unit, extra_edits=None):
     for cid, decl in unit.outlines.items():
         if cid not in outlined_bodies:
             raise Undecided('unit %s: outline %s has no replaced fragment' % (unit.name, cid))
+        opts = {}
+        if isinstance(decl, dict):
+            opts, decl = decl, decl['decl']
         parts.append('// ==== outlined fragment %s (T3): body is the original text, contract is ASSUMED\n' % cid)
-        parts.append('#[verifier::external_body]\n' + decl.rstrip() + '\n{ ' + outlined_bodies[cid] + ' }\n')
-        prov['outlines'].append({'id': cid, 'decl': decl, 'body': outlined_bodies[cid]})
+        if opts.get('compile', True):
+            body = opts.get('prefix', '') + outlined_bodies[cid] + opts.get('suffix', '')
+        else:
+            # the fragment mentions types of crates Verus cannot load (syn / proc_macro2): kept as text only
+            body = 'unimplemented!() /* original text: ' + outlined_bodies[cid].replace('*/', '* /') + ' */'
+        parts.append('#[verifier::external_body]\n' + decl.rstrip() + '\n{ ' + body + ' }\n')
+        prov['outlines'].append({'id': cid, 'decl': decl, 'body': outlined_bodies[cid], 'compiled': opts.get('compile', True)})
     if unit.epilogue:
         parts.append('// ==== unit epilogue (ghost lemmas)\n' + unit.epilogue + '\n')
     parts.append('} // verus!\nfn main() {}\n')
